@@ -179,11 +179,11 @@ class _Sink:
 
 
 def run_text(eng, p):
-    """real PolygonFilter.save -> lines -> real PolygonFilter._load with a
-    symbolic name (character codes), symbolic inversion flag and id"""
-    import io
+    """real PolygonFilter.save -> lines -> real PolygonFilter(filename=...)
+    (real __init__, _load, _set_unique_id, registry) with a symbolic name
+    (character codes), symbolic inversion flag and symbolic identifiers"""
     from vf.dcsym import rewrite_str_methods
-    from vf.symx import SStr, SInt, sformat
+    from vf.symx import SStr, SInt, smax, unformat, toint
     from vf.symnp import _truth
     n = p["n"]
     chars = [eng.int("c%d" % i) for i in range(n)]
@@ -192,10 +192,10 @@ def run_text(eng, p):
     eng.assume((chars[0] != 32) & (chars[-1] != 32))
     name = SStr(list(chars))
     inverted = bool(eng.branch(eng.bool("inverted").e))
-    uid = eng.int("uid")
-    eng.assume((uid >= 0) & (uid <= 99999999))
-    uidc = eng.concretize(uid.e) if p.get("uid_concrete") else None
-    PFc = real(PF, "PolygonFilter")
+    uids = [eng.int("uid%d" % k) for k in range(2)]
+    for u in uids:
+        eng.assume((u >= 0) & (u <= 99999999))
+    eng.assume(uids[0] != uids[1])
 
     class IOBase:            # isinstance(polyfile, io.IOBase)
         pass
@@ -211,6 +211,9 @@ def run_text(eng, p):
     class Path:
         def __init__(self, nm):
             self.nm = nm
+
+        def exists(self):
+            return True
 
         def open(self, *a, **k):
             return self
@@ -229,7 +232,7 @@ def run_text(eng, p):
     pathlib_shim.Path = Path
 
     class NP:
-        """the three numpy calls that locate the section headers"""
+        """the numpy calls that locate the section headers / parse points"""
         float64 = np.float64
 
         @staticmethod
@@ -247,42 +250,60 @@ def run_text(eng, p):
         @staticmethod
         def array(x, dtype=None):
             return np.array(x, dtype=dtype)
-    save = rewrite_str_methods(real(PF, "PolygonFilter.save"),
-                               dict(io=io_shim, pathlib=pathlib_shim),
-                               module=PF, qualname="PolygonFilter.save")
-    load = rewrite_str_methods(real(PF, "PolygonFilter._load"),
-                               dict(pathlib=pathlib_shim, np=NP, int=int),
-                               module=PF, qualname="PolygonFilter._load")
+
+    class _IntMeta(type):
+        def __instancecheck__(cls, x):
+            return isinstance(x, (int, SInt)) and not isinstance(x, bool)
+
+        def __call__(cls, x, *a):
+            if isinstance(x, SInt):
+                return x
+            if isinstance(x, str) and "\x00" in x:
+                return unformat(x)
+            return int(x, *a)
+    INT = _IntMeta("int", (), {})
+    ns = shadow(PF, np=NP, pathlib=pathlib_shim, io=io_shim, int=INT,
+                max=smax)
+    PFs = ns["PolygonFilter"]
+    g = dict(ns)
+    PFs.save = rewrite_str_methods(real(PF, "PolygonFilter.save"), g,
+                                   module=PF, qualname="PolygonFilter.save")
+    PFs._load = rewrite_str_methods(real(PF, "PolygonFilter._load"), g,
+                                    module=PF,
+                                    qualname="PolygonFilter._load")
+    PFs.instances = []
+    PFs._instance_counter = 0
     pts = [[0.25, 0.5], [10.5, 0.5], [10.5, 7.75]]
     sink = Sink()
     filters = [dict(axes=("area_um", "deform"), points=pts, name=name,
-                    inverted=inverted, uid=7 if uidc is None else uidc)]
+                    inverted=inverted, uid=uids[0])]
     if p["second"]:
         filters.append(dict(axes=("deform", "area_um"),
                             points=[[1., 2.], [3., 4.], [5., 1.]],
-                            name="second", inverted=False, uid=filters[0][
-                                "uid"] + 1))
+                            name="second", inverted=False, uid=uids[1]))
         if p["second"] == "first":
             filters.reverse()
     for f in filters:
         obj = types.SimpleNamespace(
             unique_id=f["uid"], axes=f["axes"], name=f["name"],
             inverted=f["inverted"], points=np.array(f["points"]))
-        save(obj, sink, ret_fobj=True)
+        PFs.save(obj, sink, ret_fobj=True)
     lines_store["lines"] = sink.lines
-    for k, f in enumerate(filters):
-        new = types.SimpleNamespace(inverted=False, fileid=k, name=None)
-        got = {}
-        new._set_unique_id = lambda u, g=got: g.update(uid=u)
-        load(new, "mem.poly")
+    # a fresh session: empty registry, then import_all
+    PFs.instances = []
+    PFs._instance_counter = 0
+    with quiet():
+        loaded = PFs.import_all("mem.poly")
+    eng.prove(z3.BoolVal(len(loaded) == len(filters)),
+              "import_all loads every filter of the file")
+    for new, f in zip(loaded, filters):
         nm = new.name
         same = (nm == f["name"]) if isinstance(f["name"], str) and \
             isinstance(nm, str) else SStr.lift(nm).eq(f["name"])
-        eng.prove(same, "text round trip preserves the name",
-                  info={"filter": k})
+        eng.prove(same, "text round trip preserves the name")
         eng.prove(z3.BoolVal(new.inverted == f["inverted"]),
                   "text round trip preserves the inversion flag")
-        eng.prove(z3.BoolVal(got.get("uid") == f["uid"]),
+        eng.prove(toint(new.unique_id) == f["uid"].e,
                   "text round trip preserves the identifier")
         eng.prove(z3.BoolVal(tuple(new.axes) == tuple(f["axes"])),
                   "text round trip preserves the axes")
@@ -332,9 +353,6 @@ def cases(tier, seed):
                 continue
             out.append(("text name=%d chars second=%s" % (n, second),
                         dict(kind="text", n=n, second=second)))
-    out.append(("text any id", dict(kind="text", n=1, second=None,
-                                    uid_concrete=True, skip=True)))
-    out = [c for c in out if not c[1].get("skip")]
     return out
 
 
@@ -376,6 +394,10 @@ def replay_text(params, v):
     name = "".join(chr(int(vals.get("c%d" % i, 65) or 65))
                    for i in range(params["n"]))
     inverted = bool(vals.get("inverted", False))
+    uid0 = int(vals.get("uid0", 7) or 0)
+    uid1 = int(vals.get("uid1", 8) or 0)
+    if uid0 == uid1:
+        uid1 = uid0 + 1
     PolygonFilter = real(PF, "PolygonFilter")
     pts = [[0.25, 0.5], [10.5, 0.5], [10.5, 7.75]]
     fails = []
@@ -384,12 +406,12 @@ def replay_text(params, v):
         PolygonFilter.clear_all_filters()
         try:
             specs = [dict(axes=("area_um", "deform"), points=pts, name=name,
-                          inverted=inverted, unique_id=7)]
+                          inverted=inverted, unique_id=uid0)]
             if params["second"]:
                 specs.append(dict(axes=("deform", "area_um"),
                                   points=[[1., 2.], [3., 4.], [5., 1.]],
                                   name="second", inverted=False,
-                                  unique_id=8))
+                                  unique_id=uid1))
                 if params["second"] == "first":
                     specs.reverse()
             for sp in specs:
@@ -414,7 +436,9 @@ def replay_text(params, v):
     if not fails:
         return {"reproduced": False, "key": "not-reproduced",
                 "detail": "name %r round-trips on the real code" % name}
-    kind = "name-with-equals" if "=" in name else "other"
+    kind = "name-with-equals" if "=" in name else (
+        "identifier" if any(f.startswith("unique_id") for f in fails)
+        else "other")
     return {"reproduced": True, "key": "poly-text|%s" % kind,
             "detail": fails[0]}
 
